@@ -1,7 +1,7 @@
 """C08 -- A proof means the same under every interpreter.
 
 proof stage : coq/Props/C08.v (interp_agree over all interpreter stacks for the dynamic DSL; memo/instopt
-              transparency; refutations for static instantiate (D10) and the empty delta (D11)).
+              transparency; refutation for static instantiate (D10); the empty delta (D11) is fixed in /repo, pre-fix behaviour under a named flag).
 tie         : proof terms built with the REAL DSL (library lemmas composed to depth <= 4 + raw DSL compositions,
               incl. failing ones) are run under 16 interpreter stacks in Python (harness/impl/pterm_runner.py);
               the reified term is run by the extracted model (ocaml/mlref_pterm); verdict, conclusion and -- for
@@ -126,7 +126,7 @@ def check_case(R, res, model_answers, mismatches, label):
                 and all(verd[n] for n, b, ls in STACKS if b != 'basic' and 'I' in ls) \
                 and not any(verd[n] for n, b, ls in STACKS if b != 'basic' and 'I' not in ls) \
                 and res['stats'].get('inst_empty', 0) > 0 and res['stats'].get('inst_nonempty', 0) == 0:
-            R.violation(SIG_D11, 'instantiate with empty delta: Stateful fails, Basic and InstantiationOptimizer succeed', replay)
+            R.violation(SIG_D11, 'REGRESSION of the fixed D11: instantiate with empty delta: Stateful fails, Basic and InstantiationOptimizer succeed', replay)
             kind = 'D11'
         elif (not has_inst(res)) and big_ids(res) and all(verd[n] for n, b, _ in STACKS if b != 'serializing') \
                 and all(runs[n].get('exc') == 'ValueError' for n, b, _ in STACKS if b == 'serializing'):
